@@ -33,8 +33,8 @@ ASSUMPTIONS = [
     "unordered mode: results of a batch are delivered together, batches in completion (callback) order",
 ]
 SHARDS = {"quick": 12, "thorough": 14}
-FLOORS = {"quick": {"promptness_checks": 3000, "calls": 600, "closes": 100, "drops": 60, "overlapping_calls_rejected": 60, "real_promptness_checks": 60, "completions_during_abort": 100, "second_calls_while_first_generator_holds_results": 50, "runs_completed_after_a_refused_call": 30},
-          "thorough": {"promptness_checks": 60000, "calls": 12000, "closes": 2000, "drops": 1200, "overlapping_calls_rejected": 1200, "real_promptness_checks": 900, "completions_during_abort": 2000, "second_calls_while_first_generator_holds_results": 1000, "runs_completed_after_a_refused_call": 600}}
+FLOORS = {"quick": {"promptness_checks": 3000, "calls": 600, "closes": 100, "drops": 60, "overlapping_calls_rejected": 60, "real_promptness_checks": 60, "completions_during_abort": 100, "second_calls_while_first_generator_holds_results": 50, "runs_completed_after_a_refused_call": 30, "closes_during_a_callbacks_pull": 30},
+          "thorough": {"promptness_checks": 60000, "calls": 12000, "closes": 2000, "drops": 1200, "overlapping_calls_rejected": 1200, "real_promptness_checks": 900, "completions_during_abort": 2000, "second_calls_while_first_generator_holds_results": 1000, "runs_completed_after_a_refused_call": 600, "closes_during_a_callbacks_pull": 600}}
 
 DUE_WAIT = 5.0
 
@@ -54,6 +54,8 @@ def cases(tier, seed):
         yield dict(kind="exitwith", i=i)
     for i in range(80 if tier == "quick" else 1600):
         yield dict(kind="hold", i=i)
+    for i in range(60 if tier == "quick" else 1200):
+        yield dict(kind="closepull", i=i)
 
 
 class Puller:
@@ -196,6 +198,16 @@ def run_case(case, ctx):
     # the whole sequence runs in one consumer thread (so that dispatch, pulls and close() happen in the same thread,
     # as in user code); this thread only watches it
     from vlib.scripted_backend import stacks
+    if case["kind"] == "closepull":
+        # the generator is closed while a completion callback is blocked inside its pull from a slow input: nothing may be
+        # dispatched afterwards (scenario shared with C09, which watches the input side of it)
+        from checks import c09
+        t = threading.Thread(target=guard(c09.run_close_during_pull, ctx), args=(dict(case, i=50000 + case["i"]), ctx), daemon=True)
+        t.start()
+        t.join(150)
+        if t.is_alive():
+            ctx.violation("nontermination:consumer-blocked", f"close-during-pull scenario {case} still blocked after 150 s", dict(stack=stacks().get(t.ident, "")[-1500:]))
+        return
     t = threading.Thread(target=guard(run_hold if case["kind"] == "hold" else run_scripted, ctx), args=(case, ctx), daemon=True)
     t.start()
     t.join(150)
